@@ -7,6 +7,7 @@ Nothing is imported or executed: `ast.parse` on source text only.
 from __future__ import annotations
 
 import ast
+import os
 from dataclasses import dataclass, field
 from pathlib import Path
 from typing import Dict, Iterator, List, Optional, Set, Tuple
@@ -79,6 +80,12 @@ class Repo:
                 raise AnalysisError(f"syntax error in {rel}: {e}")
             m = Module(name, p, str(rel), src, tree)
             self.modules[name] = m
+        self.renames_undone: List[str] = []
+        if not os.environ.get("SA_NO_ALPHA"):
+            from .alpha import load_reference, undo_pure_renames
+            ref = load_reference()
+            for m in self.modules.values():
+                self._undo_renames(m, ref, undo_pure_renames)
         for m in self.modules.values():
             self._index(m)
         # bases written as bare names of classes of the same module -> qualified
@@ -87,6 +94,19 @@ class Repo:
                 c.bases = [m.classes[b].qual if b in m.classes else b for b in c.bases]
         self.n_calls = 0
         self.n_resolved = 0
+
+    def _undo_renames(self, m: Module, ref, undo):
+        def rec(body, prefix):
+            for st in body:
+                if isinstance(st, (ast.FunctionDef, ast.AsyncFunctionDef)):
+                    if undo(f"{prefix}.{st.name}", st, ref):
+                        self.renames_undone.append(f"{prefix}.{st.name}")
+                elif isinstance(st, ast.ClassDef):
+                    rec(st.body, f"{prefix}.{st.name}")
+                elif isinstance(st, (ast.If, ast.Try, ast.With, ast.For, ast.While)):
+                    for fld in ("body", "orelse", "finalbody"):
+                        rec(getattr(st, fld, []) or [], prefix)
+        rec(m.tree.body, m.name)
 
     # ------------------------------------------------------------------ indexing
     def _index(self, m: Module):
